@@ -390,7 +390,7 @@ def labels_scripted(chk, variant):
     rng = chk.rng
     shapes = list(all_shapes())
     if not chk.thorough:
-        shapes = rng.sample(shapes, 260)
+        shapes = rng.sample(shapes, 220)
     ops = build(shapes)
     reqs, cases = [], []
     with patched_factories():
@@ -774,8 +774,8 @@ def compare_calls(chk, calls, origin):
 
 def mutations_corr(chk):
     rng = chk.rng
-    n_leaf = chk.budget(1500, 20000)
-    n_full = chk.budget(500, 6000)
+    n_leaf = chk.budget(1200, 20000)
+    n_full = chk.budget(400, 6000)
     all_calls = []
     # (a) single leaf / composite mutations on random schemas
     for _ in range(n_leaf):
@@ -964,7 +964,7 @@ def diagnose_unsatisfiable(chk, op, key, impl):
 
 def labels_real(chk, variant):
     rng = chk.rng
-    n_ops, n_draws = chk.budget(14, 220), chk.budget(10, 20)
+    n_ops, n_draws = chk.budget(10, 220), chk.budget(10, 20)
     judged = []
     reqs, obs = [], []
     for i in range(n_ops):
@@ -1193,25 +1193,219 @@ def filter_replay(chk):
                           {"kind": "filter", "location": loc, "schema": schema, "value": v, "hypothesis_seed": chk.seed * 7919 + i})
 
 
+def wire_witness(chk):
+    """Deterministic witness of F9 on the real code: a mutated cookie schema (real `mutate`, scripted draw) admits
+    {"c": "3"}; the real final filter of `negative_schema` lets it through; on the wire it is `c=3`, a valid integer."""
+    import jsonschema
+    from hypothesis.strategies._internal.flatmapped import FlatMapStrategy
+    schema = {"properties": {"c": {"type": "integer"}}, "additionalProperties": False, "type": "object", "required": []}
+    value = {"c": "3"}
+    cfg = GenerationConfig(modes=[GenerationMode.NEGATIVE])
+    strat = H.make_negative_strategy(copy.deepcopy(schema), "GET /wire-witness", "cookie", None, cfg)
+    while isinstance(strat, LazyStrategy):
+        strat = strat.wrapped_strategy
+    if not isinstance(strat, FlatMapStrategy):
+        chk.notes.append("wire witness: negative_schema is no longer mutated(...).flatmap(...); witness not replayed")
+        return
+    base = strat.base if hasattr(strat, "base") else strat.flatmapped_strategy
+    while isinstance(base, LazyStrategy):
+        base = base.wrapped_strategy
+    rng = __import__("random").Random(20260929)
+    for _ in range(300):
+        try:
+            mutated = base.definition(FakeDraw(Chooser(rng=rng)), *base.args, **base.kwargs)
+        except UnsatisfiedAssumption:
+            continue
+        try:
+            if not jsonschema.Draft4Validator(mutated).is_valid(value):
+                continue
+        except Exception:
+            continue
+        filtered = strat.expand(mutated)
+        while isinstance(filtered, LazyStrategy):
+            filtered = filtered.wrapped_strategy
+        if not isinstance(filtered, FilteredStrategy):
+            return
+        passes = all(cond(value) for cond in filtered.flat_conditions)
+        o = chk.driver().one("part", {"env": G.lean_env(schema, value), "schema": schema, "value": value})
+        chk.case("witness:wire", key="c=3", nontrivial=True, sample={"mutated": canon(mutated), "value": value, "filter_passes": passes})
+        chk.variants["final-filter"] = "asFound" if passes else "repaired"
+        if passes and o["raw"] is False and o["coerced"] is True:
+            chk.violation(KF_WIRE, "the cookies part {'c': '3'} passes the final filter of negative_schema (labelled "
+                          "negative) but its wire spelling conforms to c: integer",
+                          {"kind": "wire-witness", "schema": schema, "mutated": canon(mutated), "value": value})
+        return
+    chk.notes.append("wire witness: no mutated schema admitting {'c': '3'} found in 300 scripted mutations")
+
+
+class GuidedChooser(Chooser):
+    """Replays a recorded leaf-mutation request: sampled_from picks the recorded value, flags follow `enabled`."""
+
+    def __init__(self, wanted, enabled):
+        super().__init__()
+        self.wanted, self.enabled = wanted, set(enabled)
+
+
+class GuidedDraw(FakeDraw):
+    def __call__(self, strategy, label=None):
+        s = strategy
+        while isinstance(s, LazyStrategy):
+            s = s.wrapped_strategy
+        if isinstance(s, SampledFromStrategy):
+            elems = list(s.elements)
+            for w in self.chooser.wanted:
+                if w in elems:
+                    return w
+            return elems[0]
+        if isinstance(s, SharedStrategy):
+            ch = self.chooser
+
+            class _F:
+                def is_enabled(self, name):
+                    return name in ch.enabled
+            return _F()
+        return super().__call__(strategy, label)
+
+
 def run(chk):
     warnings.simplefilter("ignore")
     G.selfcheck(chk, chk.budget(150, 1500))
     variant = detect_variants(chk)
     detect_negate_variant(chk)
+    wire_witness(chk)
     chk.assumptions += [
-        "hypothesis-jsonschema: from_schema(s) yields only instances valid for s (contract `drawOK`, positive side)",
+        "hypothesis-jsonschema: from_schema(s) yields only instances valid for s (hypothesis `drawOK`, positive side); "
+        "the negative side of `drawOK` is theorem filter_guarantee",
         "can_negate = (canonicalish(s) != {}) enters the model as an oracle evaluated by the real library",
-        "as_strategy() is used without explicit path_parameters/headers/cookies/query/body overrides",
+        "as_strategy() is used without explicit path_parameters/headers/cookies/query/body overrides "
+        "(`value == explicit` never holds); hooks do not replace the strategies",
+        "mutation theorems: draft-4 reading of the schema (the code's own validator), no `$ref` at the top level of the "
+        "mutated schema, Python dicts (unique keys)",
+        "'declared schema of a parameter location' = the object schema {properties, required, additionalProperties: "
+        "false} over the raw parameter schemas (an undeclared parameter violates it, as the code base assumes)",
     ]
-    chk.proved += ["filter_guarantee", "validator_is_for_requested_schema", "labels_sound_repaired"]
+    chk.trusted += [
+        "lean/SV/Spec/JsonSchema.lean (reference JSON-Schema semantics; differentially checked against jsonschema on "
+        "every run: shared selfcheck + every judged part of a real draw)",
+        "lean/SV/Spec/C02.lean `readings`/`partConforms`: our reading of 'the value on the wire' for primitive "
+        "parameter values (string / decimal number / true,false / null spellings)",
+        "the scripted `draw` of harness/corr/c02.py (re-implements sampled_from / booleans / shared feature flags / "
+        "ordered lists / one_of / map / filter for the strategies the anchored code builds)",
+    ]
+    chk.proved += [
+        "filter_guarantee + validator_is_for_requested_schema (every value leaving negative_schema violates the schema "
+        "of the location, whatever the mutations produced)",
+        "labels_sound_repaired (full label soundness for the repaired labelling logic)",
+        "labels_sound_full_false_asFound, labels_sound_absent_body_witness (kernel-checked witnesses of F10 on the model "
+        "of the code as found)",
+        "fallback_labelled_positive, body_fallback_labelled_positive, string_only_accepts_every_wire_string",
+        "skip_not_fail (nothing negatable: SkipTest with modes=[negative], reject otherwise), negatable_gets_cases",
+        "removeRequired_negates, changeProperties_negates (relative to the nested mutation), "
+        "failure_leaves_schema_unchanged, mutate_rejects_iff_nothing_succeeded, negate_never_raises_repaired",
+        "changeType_negates_full_false, negate_negates_full_false, negate_keyError_witness, wire_spelling_witness "
+        "(witnesses: a SUCCESS mutation need not exclude valid instances; only the final filter does)",
+    ]
+    chk.partial += [
+        "labels_sound_partial_asFound: label soundness of the code as found only when every parameter location declares "
+        "a parameter and the body was drawn present (F10 excluded by hypothesis)",
+        "changeType_negates_partial: excludes integer chosen for a schema admitting number",
+        "negate_negates_partial: excludes additionalProperties among the negated keywords",
+        "label soundness is relative to `drawOK` (positive strategy yields valid values: third-party contract) and is "
+        "stated for raw values; the wire spelling of negative parameter values is not covered (F9, known finding)",
+        "change_properties / change_items are modelled relative to the results of the nested mutations (each nested "
+        "call is compared separately); tuple-form `items`, `patternProperties` interplay and explicit-argument merging "
+        "are not modelled",
+    ]
+    chk.sampled_only += [
+        "real Hypothesis draws (as_strategy in NEGATIVE and mixed configuration, pinned seeds): labels vs model, every "
+        "labelled part judged by validF in request mode, non-body parts also through their wire spelling",
+        "negative_schema draws on random location schemas judged by validF (replay of filter_guarantee)",
+        "'negatable ⇒ gets cases' on the real strategies depends on Hypothesis finding examples; an Unsatisfiable "
+        "outcome is diagnosed per location (universal schema not recognised by can_negate = known finding FC02b)",
+        "parts containing floats that jsonschema and exact decimals may read differently are not judged (counted)",
+    ]
     labels_scripted(chk, variant)
     mutations_corr(chk)
     labels_real(chk, variant)
     filter_replay(chk)
     chk.exhaustive = False
+    chk.notes.append("labels:scripted enumerates every choice sequence of openapi_cases for each sampled operation "
+                     "shape (all 4032 shapes in the thorough tier)")
 
 
 def replay(chk, data):
-    print(data.get("what"))
-    print(json.dumps(data.get("replay"), indent=1, default=str)[:4000])
+    warnings.simplefilter("ignore")
+    r = data.get("replay", {})
+    print("signature:", data.get("signature"))
+    print("what:", data.get("what"))
+    kind = r.get("kind")
+    drv = chk.driver()
+    if "correspondence" in r:
+        inp = r.get("input", {})
+        print("mechanism:", r["correspondence"])
+        print("recorded model:", json.dumps(r.get("model"), default=str)[:2000])
+        print("recorded impl: ", json.dumps(r.get("impl"), default=str)[:2000])
+        if isinstance(inp, dict) and "lean" in inp and "shape" in inp:
+            kind, r = "scripted", {"operation": inp["shape"], "modes": ["negative"] if inp.get("only") else ["positive", "negative"],
+                                   "choices": inp.get("choices", [])}
+        elif isinstance(inp, dict) and "op" in inp and "a" in inp:
+            kind, r = "mutation", {"request": inp["a"], "opname": inp["op"]}
+        else:
+            return 0
+    if kind == "scripted":
+        sh = r["operation"]
+        modes = [GenerationMode(m) for m in r["modes"]]
+        op = build([sh])[0]
+        with patched_factories():
+            k, case, conts, body_idx = run_openapi_cases(op, modes, GenerationMode.NEGATIVE, Chooser(r.get("choices", [])))
+        impl = k if case is None else observed(case)
+        print("impl now :", impl, "values:", {c.location: (None if c.value is None else str(c.value)[:60]) for c in conts.values()})
+        for variant in ("asFound", "repaired"):
+            a = {"variant": variant, "op": describe(op), "only": len(modes) == 1, "mode": "negative",
+                 "draws": draws_of(conts, body_idx)}
+            print(f"model {variant}:", model_outcome(drv.one("labels", a)))
+    elif kind == "real":
+        d = r["operation"]
+        template = "/r" + "".join(f"/{{{p['name']}}}" for p in d["parameters"] if p["in"] == "path")
+        raw = {"openapi": "3.0.2", "info": {"title": "t", "version": "1"}, "paths": {template: {"post": d}}}
+        op = schemathesis.openapi.from_dict(raw)[template]["POST"]
+        cfg = GenerationConfig(modes=[GenerationMode(m) for m in r["modes"]])
+        cases, stop = draw_real(op.as_strategy(generation_mode=GenerationMode.NEGATIVE, generation_config=cfg), 20,
+                                r["hypothesis_seed"])
+        print("impl now : outcome", stop or "cases", "— first cases:")
+        for c in cases[:20]:
+            print("  ", observed(c), {k: str(getattr(c, k))[:50] for k in KINDS})
+        print("recorded :", json.dumps({k: r.get(k) for k in ("components", "values", "verdicts", "location", "schema")},
+                                       default=str)[:3000])
+    elif kind == "mutation":
+        a = r["request"]
+        opname = r.get("opname") or ("negate" if "candidate" in a else "changeType" if "choice" in a else "removeRequired")
+        print("model now:", json.dumps(drv.one(opname, a), default=str)[:2000])
+        fn = {"negate": M.negate_constraints, "changeType": M.change_type, "removeRequired": M.remove_required_property}.get(opname)
+        if fn is not None:
+            ctxd = a.get("ctx", {"loc": "body", "form": False})
+            loc = {"path_parameters": "path", "headers": "header", "cookies": "cookie"}.get(ctxd["loc"], ctxd["loc"])
+            ctx = M.MutationContext(keywords=a["schema"], non_keywords={}, location=loc,
+                                    media_type="application/x-www-form-urlencoded" if ctxd["form"] else "application/json")
+            sch = copy.deepcopy(a["schema"])
+            wanted = [a.get("name"), a.get("choice"), a.get("candidate")]
+            try:
+                res = fn(ctx, GuidedDraw(GuidedChooser([w for w in wanted if w], a.get("enabled", []))), sch).name
+            except KeyError as e:
+                res = f"KeyError({e})"
+            print("impl now :", res, json.dumps(canon(sch))[:2000])
+    elif kind == "filter":
+        cfg = GenerationConfig(modes=[GenerationMode.NEGATIVE])
+        strat = H.make_negative_strategy(copy.deepcopy(r["schema"]), "POST /replay", r["location"], "application/json", cfg)
+        vals, stop = draw_real(strat, 15, r["hypothesis_seed"])
+        for v in vals:
+            print("impl now : value", json.dumps(canon(v))[:200], "jsonschema valid:", G.js_valid(r["schema"], canon(v), True))
+        print("recorded :", json.dumps(r["value"])[:500], "lean valid:",
+              drv.one("valid", {"env": G.lean_env(r["schema"], r["value"]), "schema": r["schema"], "instance": r["value"]}))
+    elif kind == "wire-witness":
+        wire_witness(chk)
+        print("impl now :", chk.variants.get("final-filter"), [v["what"] for v in chk.violations] + [k["what"] for k in chk.known_hits])
+        print("model    :", drv.one("part", {"env": G.lean_env(r["schema"], r["value"]), "schema": r["schema"], "value": r["value"]}))
+    else:
+        print(json.dumps(r, indent=1, default=str)[:4000])
     return 0
